@@ -168,6 +168,30 @@ fn push_init_event(table: &'static str, begin: bool) {
         .push(ev);
 }
 
+/// Callback type of [`set_init_gate`]: `(table, begin)`.
+pub type InitGate = fn(&'static str, bool);
+
+static INIT_GATE: Mutex<Option<InitGate>> = Mutex::new(None);
+
+/// Installs (or removes) a callback that runs on the initialising thread right after a table
+/// initialiser has begun (`begin == true`) and right before it ends (`begin == false`, the
+/// table is computed but not yet published). A harness may block in it to steer schedules.
+pub fn set_init_gate(gate: Option<InitGate>) {
+    *INIT_GATE
+        .lock()
+        .unwrap_or_else(std::sync::PoisonError::into_inner) = gate;
+}
+
+fn call_init_gate(table: &'static str, begin: bool) {
+    // copy the pointer out: the callback may block for long
+    let gate = *INIT_GATE
+        .lock()
+        .unwrap_or_else(std::sync::PoisonError::into_inner);
+    if let Some(gate) = gate {
+        gate(table, begin);
+    }
+}
+
 /// Records begin on creation and end on drop of a table initialiser.
 pub(crate) struct InitGuard(&'static str);
 
@@ -175,12 +199,14 @@ impl InitGuard {
     pub(crate) fn new(table: &'static str) -> Self {
         INIT_DEPTH.with(|d| d.borrow_mut().push(table));
         push_init_event(table, true);
+        call_init_gate(table, true);
         Self(table)
     }
 }
 
 impl Drop for InitGuard {
     fn drop(&mut self) {
+        call_init_gate(self.0, false);
         push_init_event(self.0, false);
         INIT_DEPTH.with(|d| {
             d.borrow_mut().pop();
